@@ -502,19 +502,28 @@ def run(ctx: Ctx, rs: RuleSet, tier: str):
   sub = roles.assigned_from(f, lambda e: isinstance(e, ast.Call) and isinstance(
       e.func, ast.Attribute) and e.func.attr == 'flattened_map_children' and
                             [unparse(a) for a in e.args] == [vp])
-  meta = roles.assigned_from(f, lambda e: isinstance(e, ast.Call) and isinstance(
-      e.func, ast.Attribute) and e.func.attr == 'without_history' and
-                             isinstance(e.func.value, ast.Attribute) and
-                             e.func.value.attr == 'metadata' and
-                             unparse(e.func.value.value) in sub)
-  ok = any(isinstance(r, ast.Return) and isinstance(r.value, ast.Call) and
-           isinstance(r.value.func, ast.Attribute) and
-           r.value.func.attr == 'unflatten' and len(r.value.args) == 2 and
-           isinstance(r.value.args[0], ast.Attribute) and
-           r.value.args[0].attr == 'values' and
-           unparse(r.value.args[0].value) in sub and
-           unparse(r.value.args[1]) in meta
-           for r in walk_function(f.node))
+  def is_meta(e):
+    e = roles.deref(f, e)
+    return (isinstance(e, ast.Call) and isinstance(e.func, ast.Attribute) and
+            e.func.attr == 'without_history' and not e.args and
+            isinstance(roles.deref(f, e.func.value), ast.Attribute) and
+            roles.deref(f, e.func.value).attr == 'metadata' and
+            unparse(roles.deref(f, e.func.value).value) in sub)
+
+  def is_values(e):
+    e = roles.deref(f, e)
+    return isinstance(e, ast.Attribute) and e.attr == 'values' and unparse(
+        e.value) in sub
+
+  ok = any(isinstance(r, ast.Return) and isinstance(
+      roles.deref(f, r.value), ast.Call) and
+           isinstance(roles.deref(f, r.value).func, ast.Attribute) and
+           roles.deref(f, r.value).func.attr == 'unflatten' and
+           len(roles.deref(f, r.value).args) == 2 and
+           is_values(roles.deref(f, r.value).args[0]) and
+           is_meta(roles.deref(f, r.value).args[1])
+           for r in walk_function(f.node) if isinstance(r, ast.Return) and
+           r.value is not None)
   rs.check(ok, rule, f.qualname,
            'Buildables are rebuilt from the same (traversed) values with '
            'metadata minus history', ctx.loc(f, f.node), nontrivial=False)
